@@ -285,9 +285,11 @@ func runEnvCase(c *envCase, idx int, work, exe string) (caseLine, impl, pred str
 	restore()
 	_ = err
 
+	// what the caller configured — the documented default (10000..25000) when it configured NO range at all; computed here,
+	// not read back from the config struct that NewClient may have rewritten in place
 	minp, maxp := c.gminp, c.gmaxp
-	if cfg != nil {
-		minp, maxp = cfg.MinPort, cfg.MaxPort // after NewClient's defaults
+	if minp == 0 && maxp == 0 {
+		minp, maxp = 10000, 25000
 	}
 	if c.mode == "child" && obs.launched {
 		obs.childEff, obs.childIn, obs.childOK = readChildReport(outFile)
@@ -748,7 +750,7 @@ func c17Secondaries(i int) c17Secondary {
 		pv     int
 	}{{[]int{1}, false, 0}, {[]int{1, 2, 3}, false, 0}, {nil, false, 0}, {[]int{-1, 0, 10}, false, 0}, {nil, true, 3},
 		{[]int{1, 2}, true, 3}, {[]int{1, 2}, true, 2}, {[]int{5, 4, 3, 2, 1, 12, 11, 100}, false, 0}}
-	ports := [][2]uint{{0, 0}, {10000, 10100}, {1, 65535}}
+	ports := [][2]uint{{0, 0}, {10000, 10100}, {1, 65535}, {0, 9000}, {20000, 0}}
 	ck := cookies[i%len(cookies)]
 	v := vers[i%len(vers)]
 	p := ports[i%len(ports)]
